@@ -154,6 +154,9 @@ const c9wait = 8 * time.Second
 //	enter (pass admission; if admitted, be driven into Run), finish (end the run by its outcome ok|fail|cancel).
 //	=> st=<I|Y|R|X|D per thread>;max=<sid=max concurrently running>;pend=<sid=0|1>;leak=<sid=live subs+streams, quiescent sids>
 func c9race(a []string) string {
+	if c9RegistriesUnsafe.Load() {
+		return c9skipped
+	}
 	defer func() {
 		if r := recover(); r != nil {
 			if os.Getenv("VERIF_DUMP") != "" {
@@ -299,6 +302,9 @@ func c9race(a []string) string {
 //	second attempt, scripted by  elected (self | other | any) : end (ok | fail | cancel | idle | silent)
 //	=> per session ret/sub/unsub/close/live/streams/open/runs/stops/pend/elive/estreams  joined by ','
 func c9sess(a []string) string {
+	if c9RegistriesUnsafe.Load() {
+		return c9skipped
+	}
 	c9installHook()
 	w := newC9World()
 	outs := []string{}
@@ -630,6 +636,9 @@ func (w *c9world) session(name, role string, np int, oc, second string) string {
 //	hook lets everybody through). The admitted session(s) stay alive until every other request has returned.
 //	=> admitted=<k>,refused=<n-k>   (under -race this is also what exposes unsynchronised accesses)
 func c9stress(a []string) string {
+	if c9RegistriesUnsafe.Load() {
+		return c9skipped
+	}
 	c9installHook()
 	n := int(u64(a[0]))
 	w := newC9World()
